@@ -2,7 +2,7 @@
 # Self-test (not a registered check): harmless, semantics-preserving edits must never produce exit 1 (a VIOLATION); exit 2
 # (UNDECIDED: an anchor was rewritten) is tolerated and listed.  usage: benigncheck.sh <dir with *.diff>
 WT=${VERIF_SCRATCH_WT:-/tmp/wt2}
-D=${1:-/tmp/seed/benign}
+D=${1:-/verif/benign}
 cd $WT || exit 9
 bad=0
 for p in $D/*.diff; do
